@@ -520,6 +520,10 @@ class Interp:
                             return ('field', o, r['name'], n)
         if k in ('CXXOperatorCallExpr', 'CXXMemberCallExpr', 'CallExpr'):
             return ('val', self.call(n, env))
+        if k == 'ConditionalOperator':
+            ch = children(n)
+            c = self.truth(self.expr(ch[0], env), ch[0])
+            return self.lval(ch[1] if c else ch[2], env)
         raise AnalysisBroken('unsupported lvalue %s at %s' % (k, pos(n)))
 
     def load(self, lv, env):
@@ -709,7 +713,8 @@ class Interp:
             self.ub_event('negate-int-min', n)
             return v
         if v.signed:
-            return self.make(v.w, True, -v.hi, -v.lo, None, n, 'negate')
+            aff = ({k_: -c_ for k_, c_ in v.aff[0].items()}, -v.aff[1]) if v.aff is not None else None
+            return self.make(v.w, True, -v.hi, -v.lo, None, n, 'negate', aff)
         m = 1 << v.w
         if v.lo == 0 and v.hi == 0:
             return v
@@ -1026,8 +1031,14 @@ class Interp:
             if isinstance(o, Vec):
                 if name == 'size':
                     return const(64, False, len(o.items))
-                if name == 'back':
+                if name in ('back', 'top'):
                     return o.items[-1]
+                if name in ('pop', 'pop_back'):
+                    o.items.pop()
+                    return None
+                if name == 'push':
+                    o.items.append(self.consume(self.expr(args[0], env), env))
+                    return None
                 if name == 'front':
                     return o.items[0]
                 if name == 'empty':
